@@ -26,7 +26,15 @@ def keys {κ α} (m : Assoc κ α) : List κ := m.map (·.1)
 
 /-! ## the scenario AST -/
 
-inductive Kind | computer | server | switch | router | firewall
+inductive Kind | computer | server | printer | switch | router | firewall
+deriving DecidableEq, Repr
+
+/-- `NodeOperatingState` (the four values docs/source/configuration/simulation/nodes/common/common_node_attributes.rst lists). -/
+inductive Power | on | off | booting | shuttingDown
+deriving DecidableEq, Repr
+
+/-- `SoftwareHealthState` -/
+inductive Health | unused | good | fixing | compromised | overwhelmed
 deriving DecidableEq, Repr
 
 /-- `ip_address` / `subnet_mask` of a port or NIC entry (`subnet_mask` optional for router / firewall ports). -/
@@ -47,6 +55,11 @@ structure SwCfg where
   isApp : Bool
   type : String
   opts : String
+  /-- `options.starting_health_state` (`none` = key absent: the schema default GOOD) -/
+  health : Option Health := none
+  /-- does the class's `__init__` call `self.start()` / `self.run()`? (read off the class by the rig; the theorems hold for
+  either value, so nothing depends on the rig getting it right) -/
+  initStarts : Bool := false
 deriving DecidableEq, Repr
 
 structure UserCfg where
@@ -69,8 +82,8 @@ deriving DecidableEq, Repr
 structure NodeCfg where
   kind : Kind
   hostname : String
-  /-- `operating_state`: `none` = key absent (or falsy), `some true` = ON, `some false` = OFF -/
-  on : Option Bool := none
+  /-- `operating_state`: `none` = key absent (or falsy) -/
+  power : Option Power := none
   startUp : Option Nat := none
   shutDown : Option Nat := none
   dns : Option Ip := none
@@ -139,6 +152,10 @@ structure Nic where
   name : Option String
   ip : Option Ip
   mask : Option Ip
+  /-- `_connected_link is not None` -/
+  wired : Bool := false
+  /-- `enabled` -/
+  enabled : Bool := false
 deriving DecidableEq, Repr
 
 structure RouteInv where
@@ -155,6 +172,10 @@ structure SoftInv where
   isApp : Bool
   opts : String
   live : Nat
+  /-- `operating_state` is RUNNING (otherwise STOPPED for a service, CLOSED for an application) -/
+  running : Bool
+  /-- `health_state_actual` -/
+  health : Health
 deriving DecidableEq, Repr
 
 structure UserInv where
@@ -166,7 +187,7 @@ deriving DecidableEq, Repr
 structure NodeInv where
   kind : Kind
   hostname : String
-  on : Bool
+  power : Power
   startUp : Nat
   shutDown : Nat
   dns : Option Ip
@@ -241,7 +262,7 @@ def routerSystem : List (String × Bool) :=
   [("user-session-manager", false), ("user-manager", false), ("terminal", false), ("icmp", false), ("arp", false), ("nmap", true)]
 
 def systemSoftware : Kind → List (String × Bool)
-  | .server => hostSystem
+  | .server | .printer => hostSystem                          -- Printer(HostNode) adds nothing to HostNode.SYSTEM_SOFTWARE
   | .computer => hostSystem ++ [("ftp-client", false)]     -- Computer.SYSTEM_SOFTWARE = {**HostNode.SYSTEM_SOFTWARE, "ftp-client": …}
   | .router | .firewall => routerSystem
   | .switch => []
@@ -257,7 +278,41 @@ structure Soft where
   name : String
   isApp : Bool
   opts : String
+  /-- `operating_state` is RUNNING (else STOPPED / CLOSED) -/
+  running : Bool := false
+  /-- `health_state_actual` -/
+  health : Health := .good
 deriving DecidableEq, Repr
+
+/-- one call of `software_manager.install(cls, config)` as the loader makes it -/
+structure SoftReq where
+  name : String
+  isApp : Bool
+  opts : String
+  /-- `config.starting_health_state` -/
+  health0 : Health := .good
+  /-- the class's `__init__` ends with `self.start()` / `self.run()` -/
+  initStarts : Bool := false
+  /-- the request comes from a `services:` / `applications:` entry: the loader calls `.start()` / `.run()` on it afterwards -/
+  configured : Bool := false
+deriving DecidableEq, Repr
+
+/-- `Service.start` / `Application.run`: refused unless the node is ON (`Software._can_perform_action`); from STOPPED / CLOSED the
+software becomes RUNNING and a health of UNUSED becomes GOOD. -/
+def startSw (p : Power) (s : Soft) : Soft :=
+  if p = .on ∧ s.running = false then
+    { s with running := true, health := if s.health = .unused then .good else s.health }
+  else s
+
+/-- the life of one instance from its constructor to the loader's own `.start()` / `.run()`:
+`Software.__init__` (`health_state_actual = config.starting_health_state`), the class's `__init__` (some end with
+`self.start()` / `self.run()`), `SoftwareManager.install` (a service is started, an application's state is set to CLOSED),
+then for configured entries `new_service.start()` / `new_application.run()`. -/
+def newInstance (p : Power) (r : SoftReq) : Soft :=
+  let s0 : Soft := { name := r.name, isApp := r.isApp, opts := r.opts, running := false, health := r.health0 }
+  let s1 := if r.initStarts then startSw p s0 else s0
+  let s2 := if r.isApp then { s1 with running := false } else startSw p s1
+  if r.configured then startSw p s2 else s2
 
 /-- `software_manager.software[name]`: the most recently registered live instance of that name. -/
 def registered (insts : List Soft) (name : String) : Option Soft :=
@@ -282,6 +337,11 @@ def lastRequests : List Soft → List Soft
   | [] => []
   | s :: rest => if rest.any (fun x => decide (x.name = s.name)) then lastRequests rest else s :: lastRequests rest
 
+/-- the same selection on the requests themselves (used by `declaredSoftware`, which never looks at an instance) -/
+def lastReqs : List SoftReq → List SoftReq
+  | [] => []
+  | s :: rest => if rest.any (fun x => decide (x.name = s.name)) then lastReqs rest else s :: lastReqs rest
+
 def liveCount (insts : List Soft) (name : String) : Nat := (insts.filter (·.name = name)).length
 
 /-- the software inventory as the walker sees it: for every live instance, the registry entry of its name and the
@@ -289,24 +349,36 @@ number of live instances of that name. -/
 def softInventory (insts : List Soft) : List SoftInv :=
   insts.map fun s =>
     match registered insts s.name with
-    | some r => { name := r.name, isApp := r.isApp, opts := r.opts, live := liveCount insts s.name }
-    | none => { name := s.name, isApp := s.isApp, opts := s.opts, live := 0 }   -- unreachable: s itself is there
+    | some r => { name := r.name, isApp := r.isApp, opts := r.opts, live := liveCount insts s.name,
+                  running := r.running, health := r.health }
+    | none => { name := s.name, isApp := s.isApp, opts := s.opts, live := 0, running := s.running, health := s.health }   -- unreachable: s itself is there
 
 /-- the `services:` loop: `software_manager.install(cls, options)`; `DatabaseService.install()` additionally installs an
-`FTPClient` when `software.get("ftp-client")` is empty at that moment. `seen` = names registered so far. -/
-def installServices (seen : List String) : List SwCfg → List Soft
+`FTPClient` (whose `__init__` starts it) when `software.get("ftp-client")` is empty at that moment. `seen` = names registered so far. -/
+def installServices (seen : List String) : List SwCfg → List SoftReq
   | [] => []
   | c :: rest =>
-    let s : Soft := { name := c.type, isApp := false, opts := c.opts }
+    let s : SoftReq := { name := c.type, isApp := false, opts := c.opts, health0 := c.health.getD .good,
+                         initStarts := c.initStarts, configured := true }
     if c.type = "database-service" ∧ "ftp-client" ∉ seen then
-      s :: { name := "ftp-client", isApp := false, opts := "" } :: installServices ("ftp-client" :: c.type :: seen) rest
+      s :: { name := "ftp-client", isApp := false, opts := "", initStarts := true } :: installServices ("ftp-client" :: c.type :: seen) rest
     else s :: installServices (c.type :: seen) rest
 
 /-- every `install()` of a node in call order: `_install_system_software`, the `services:` loop, the `applications:` loop. -/
-def installAll (k : Kind) (n : NodeCfg) : List Soft :=
+def installRequests (k : Kind) (n : NodeCfg) : List SoftReq :=
   (systemSoftware k).map (fun (nm, app) => { name := nm, isApp := app, opts := "" })
     ++ installServices ((systemSoftware k).map (·.1)) n.services
-    ++ n.applications.map (fun c => { name := c.type, isApp := true, opts := c.opts })
+    ++ n.applications.map (fun c => { name := c.type, isApp := true, opts := c.opts, health0 := c.health.getD .good,
+                                      initStarts := c.initStarts, configured := true })
+
+/-- the instances those calls create, each after its own constructor / install / loader start, on a node whose operating state
+is `p` throughout loading -/
+def installAll (p : Power) (k : Kind) (n : NodeCfg) : List Soft := (installRequests k n).map (newInstance p)
+
+/-- `if new_node.operating_state == ON: new_node.power_on()` with `start_up_duration` temporarily 0: `_start_up_actions` starts
+every service and runs every application (a node in any other state is left alone). -/
+def powerOnSoftware (p : Power) (insts : List Soft) : List Soft :=
+  if p = .on then insts.map (startSw p) else insts
 
 /-- `UserManager.add_user`: refused when the name exists. Called from `Node.__init__` and again from `from_config`. -/
 def addUser (us : List UserInv) (u : UserCfg) : List UserInv :=
@@ -386,19 +458,28 @@ def fwNic (n : NodeCfg) (key name : String) (mandatory : Bool) : Except Err Nic 
   | some c => .ok { name := some name, ip := some c.ip, mask := some (c.mask.getD defaultMask) }
   | none => if mandatory ∧ ¬ n.fwPorts.isEmpty then .error .fwPortMissing else .ok (loopNic (some name))
 
-/-- one iteration of `for node_cfg in nodes_cfg` (type-specific `from_config`, users, software, extra NICs, durations). -/
+/-- `WiredNetworkInterface.enable`: succeeds only on an ON node and only with a link connected. -/
+def enableNic (p : Power) (c : Nic) : Nic := if p = .on ∧ c.wired then { c with enabled := true } else c
+
+/-- `power_on()` at the end of a node's iteration: `for network_interface in …: network_interface.enable()` (no interface has a
+link yet at that point, so nothing is enabled — kept because the loader does it). -/
+def powerOnNics (p : Power) (nics : List Nic) : List Nic := if p = .on then nics.map (enableNic p) else nics
+
+/-- one iteration of `for node_cfg in nodes_cfg` (type-specific `from_config`, users, software, extra NICs, durations,
+`power_on()` when the node is ON). -/
 def buildNode (n : NodeCfg) : Except Err NodeInv :=
   let common (nics : List Nic) (acls : List (String × Acl)) (net : Bool) : NodeInv :=
-    { kind := n.kind, hostname := n.hostname, on := n.on.getD true,
+    { kind := n.kind, hostname := n.hostname, power := n.power.getD .on,
       startUp := n.startUp.getD defaultDuration, shutDown := n.shutDown.getD defaultDuration,
-      dns := n.dns, gateway := n.gateway, nics := nics, acls := acls,
+      dns := n.dns, gateway := n.gateway, nics := powerOnNics (n.power.getD .on) nics, acls := acls,
       routes := if net then n.routes.map routeOf else [],
       defaultRoute := if net then n.defaultRoute else none,
-      software := softInventory (installedAfter (installAll n.kind n)),
+      software := softInventory (powerOnSoftware (n.power.getD .on)
+        (installedAfter (installAll (n.power.getD .on) n.kind n))),
       users := if n.kind = .switch then [] else buildUsers n,
       folders := if net then [] else buildFolders n }
   match n.kind with
-  | .computer | .server =>
+  | .computer | .server | .printer =>
     match n.ip with
     | none => .error .hostNoAddress
     | some ip =>
@@ -435,7 +516,18 @@ def buildNodes : List NodeCfg → Except Err (List NodeInv)
 /-- `net.get_node_by_hostname`: first node of that name. -/
 def findNode (nodes : List NodeInv) (h : String) : Option NodeInv := nodes.find? (·.hostname = h)
 
-/-- one iteration of `for link_cfg in links_cfg`. -/
+/-- `WiredNetworkInterface.connect_link`: refused when the interface already has a link; otherwise the link is attached and
+`enable()` is attempted (it succeeds iff the node is ON). -/
+def plug (p : Power) (c : Nic) : Nic := if c.wired then c else enableNic p { c with wired := true }
+
+def plugNode (n : NodeInv) (port : Nat) : NodeInv := { n with nics := n.nics.modify (port - 1) (plug n.power) }
+
+/-- the interface `port` of the first node named `h` gets the link -/
+def plugAt : List NodeInv → String → Nat → List NodeInv
+  | [], _, _ => []
+  | n :: rest, h, port => if n.hostname = h then plugNode n port :: rest else n :: plugAt rest h port
+
+/-- one iteration of `for link_cfg in links_cfg`: the endpoints are looked up (KeyError / AttributeError otherwise). -/
 def buildLink (nodes : List NodeInv) (l : LinkCfg) : Except Err LinkInv :=
   match findNode nodes l.a, findNode nodes l.b with
   | some na, some nb =>
@@ -445,13 +537,15 @@ def buildLink (nodes : List NodeInv) (l : LinkCfg) : Except Err LinkInv :=
     else .error .noSuchPort
   | _, _ => .error .noSuchNode
 
-def buildLinks (nodes : List NodeInv) : List LinkCfg → Except Err (List LinkInv)
-  | [] => .ok []
+/-- the `links` loop: `Network.connect` creates the `Link`, whose constructor attaches it to endpoint a, then to endpoint b.
+Returns the nodes (interfaces now wired / enabled) and the links. -/
+def buildLinks (nodes : List NodeInv) : List LinkCfg → Except Err (List NodeInv × List LinkInv)
+  | [] => .ok (nodes, [])
   | l :: rest => match buildLink nodes l with
     | .error e => .error e
-    | .ok x => match buildLinks nodes rest with
+    | .ok x => match buildLinks (plugAt (plugAt nodes l.a l.pa) l.b l.pb) rest with
       | .error e => .error e
-      | .ok xs => .ok (x :: xs)
+      | .ok (ns, xs) => .ok (ns, x :: xs)
 
 /-- `ActionManager.__init__`: `{n: (v.action, v.options) for n, v in action_map.items()}`; observed through
 `action_map[i]` for `i < len(action_map)` (that is how `get_action`, the mask and the action space use it). -/
@@ -474,7 +568,7 @@ def build (s : Scenario) : Except Err Inventory :=
   | .error e => .error e
   | .ok nodes => match buildLinks nodes s.links with
     | .error e => .error e
-    | .ok links => .ok { nodes := nodes, links := links, agents := buildAgents s.agents }
+    | .ok (wired, links) => .ok { nodes := wired, links := links, agents := buildAgents s.agents }
 
 /-! ## what the documentation says the file declares -/
 
@@ -499,8 +593,13 @@ def declaredNics (m : Assoc Nat IfCfg) : List Nic := (sortByKey m).map fun e => 
 /-- every piece of software the node is asked to carry (pre-installed system software, the configured services and
 applications, the FTP client a database service brings along): ONE live instance per name, with the options of the last
 entry that names it (a configured entry for pre-installed system software replaces the bare pre-installed instance). -/
-def declaredSoftware (k : Kind) (n : NodeCfg) : List SoftInv :=
-  (lastRequests (installAll k n)).map fun s => { name := s.name, isApp := s.isApp, opts := s.opts, live := 1 }
+def declaredSoftware (p : Power) (k : Kind) (n : NodeCfg) : List SoftInv :=
+  (lastReqs (installRequests k n)).map fun r =>
+    { name := r.name, isApp := r.isApp, opts := r.opts, live := 1,
+      -- initial state: software runs exactly on a node that is ON; its health is the configured starting health
+      -- (UNUSED means "never run": on an ON node the software has been started, which makes it GOOD)
+      running := decide (p = .on),
+      health := if p = .on ∧ r.health0 = .unused then .good else r.health0 }
 
 def declaredUsers (n : NodeCfg) : List UserInv :=
   adminUser :: n.users.map fun u => { name := u.name, password := u.password, admin := u.admin.getD false }
@@ -516,11 +615,11 @@ def declaredFwAcls (n : NodeCfg) : List (String × Acl) :=
 
 def declaredNode (n : NodeCfg) : NodeInv :=
   let net : Bool := n.kind = .switch ∨ n.kind = .router ∨ n.kind = .firewall
-  { kind := n.kind, hostname := n.hostname, on := n.on.getD true,
+  { kind := n.kind, hostname := n.hostname, power := n.power.getD .on,
     startUp := n.startUp.getD defaultDuration, shutDown := n.shutDown.getD defaultDuration,
     dns := n.dns, gateway := n.gateway,
     nics := match n.kind with
-      | .computer | .server =>
+      | .computer | .server | .printer =>
         { name := none, ip := n.ip, mask := some (n.mask.getD defaultMask) } :: declaredNics n.nics
       | .switch => List.replicate (n.numPorts.getD defaultSwitchPorts) { name := none, ip := none, mask := none }
       | .router => declaredPorts (n.numPorts.getD defaultRouterPorts) n.ports
@@ -532,15 +631,27 @@ def declaredNode (n : NodeCfg) : NodeInv :=
       | _ => [],
     routes := if net then n.routes.map routeOf else [],
     defaultRoute := if net then n.defaultRoute else none,
-    software := declaredSoftware n.kind n,
+    software := declaredSoftware (n.power.getD .on) n.kind n,
     users := if n.kind = .switch then [] else declaredUsers n,
     folders := if net then [] else n.folders }
 
 def declaredLink (l : LinkCfg) : LinkInv :=
   { a := l.a, pa := l.pa, b := l.b, pb := l.pb, bandwidth := l.bandwidth.getD defaultBandwidth }
 
+/-- does the file's `links` list name interface `port` of host `h` as an endpoint? -/
+def namesEndpoint (links : List LinkCfg) (h : String) (port : Nat) : Bool :=
+  links.any fun l => (decide (l.a = h) && decide (l.pa = port)) || (decide (l.b = h) && decide (l.pb = port))
+
+/-- initial state of the interfaces: interface `i` is wired iff a link of the file ends there, and enabled iff it is wired and
+the node is ON. -/
+def declaredWiring (links : List LinkCfg) (n : NodeInv) : NodeInv :=
+  { n with nics := n.nics.mapIdx fun i c =>
+      if namesEndpoint links n.hostname (i + 1) then
+        { c with wired := true, enabled := decide (n.power = .on) } else c }
+
 def declared (s : Scenario) : Inventory :=
-  { nodes := s.nodes.map declaredNode, links := s.links.map declaredLink, agents := s.agents.map agentOf }
+  { nodes := (s.nodes.map declaredNode).map (declaredWiring s.links), links := s.links.map declaredLink,
+    agents := s.agents.map agentOf }
 
 /-! ## episode schedules (`EpisodeListScheduler.__call__`) -/
 
@@ -568,5 +679,148 @@ def flattenAgents {α} : List (α ⊕ List α) → List α
   | [] => []
   | .inl a :: rest => a :: flattenAgents rest
   | .inr as :: rest => as ++ flattenAgents rest
+
+/-! ## the `office-lan` node set (`OfficeLANAdder.add_nodes_to_net`, creation.py)
+
+The adder is an imperative loop with three counters (current edge switch, next free port on it, next free port on the core
+switch). `officeBuild` follows it statement by statement; `officeDeclared` is the closed form of docs/source/node_sets.rst:
+`num_pcs` computers, one 24-port edge switch per 23 computers (port 24 is the uplink), a core switch when more than one edge
+switch is needed, an optional router on port 24 of the core switch (or of the only edge switch). -/
+
+structure OfficeCfg where
+  lanName : String
+  subnetBase : Nat
+  ipStart : Nat
+  numPcs : Nat
+  /-- `include_router` (`none` = key absent: default True) -/
+  includeRouter : Option Bool := none
+  /-- `bandwidth` (`none` = key absent: default 100) -/
+  bandwidth : Option Nat := none
+deriving DecidableEq, Repr
+
+inductive OKind | core | edge | router | pc
+deriving DecidableEq, Repr
+
+/-- a node the adder creates: its hostname, and for addressed nodes the fourth octet of `192.168.<subnet_base>.<octet>` -/
+structure ONode where
+  kind : OKind
+  name : String
+  octet : Option Nat := none
+  /-- has `default_gateway` 192.168.<subnet_base>.1 -/
+  gateway : Bool := false
+deriving DecidableEq, Repr
+
+structure OfficeInv where
+  nodes : List ONode
+  links : List LinkInv
+deriving DecidableEq, Repr
+
+inductive OErr
+  | ipRange        -- ConfigSchema.check_ip_range: pcs_ip_block_start + num_pcs >= 254
+  | ipStartSmall   -- pcs_ip_block_start <= number of switches
+  | unboundRouter  -- the `else` branch of the loop names `router` although none was created (UnboundLocalError)
+deriving DecidableEq, Repr
+
+def pcsPerSwitch : Nat := 23        -- effective_network_interface
+def uplinkPort : Nat := 24          -- "num_ports": 24; every uplink uses port 24
+def officeIpLimit : Nat := 254
+
+/-- `num_of_switches_required(num_nodes)` -/
+def numSwitches (n : Nat) : Nat := n / pcsPerSwitch + (if n % pcsPerSwitch > 0 then 1 else 0)
+
+def coreName (lan : String) : String := "switch_core_" ++ lan
+def routerName (lan : String) : String := "router_" ++ lan
+def edgeName (lan : String) (k : Nat) : String := "switch_edge_" ++ toString k ++ "_" ++ lan
+def pcName (lan : String) (i : Nat) : String := "pc_" ++ toString i ++ "_" ++ lan
+
+def oLink (a : String) (pa : Nat) (b : String) (pb : Nat) (bw : Nat) : LinkInv := { a := a, pa := pa, b := b, pb := pb, bandwidth := bw }
+
+structure OSt where
+  switchN : Nat
+  switchPort : Nat
+  corePort : Nat
+  nodes : List ONode
+  links : List LinkInv
+deriving DecidableEq, Repr
+
+/-- one iteration of `for i in range(1, config.num_pcs + 1)` -/
+def officeStep (c : OfficeCfg) (multi hasRouter : Bool) (st : OSt) (i : Nat) : Except OErr OSt :=
+  let lan := c.lanName
+  let bw := c.bandwidth.getD defaultBandwidth
+  let opened : Except OErr OSt :=
+    if st.switchPort = pcsPerSwitch then
+      let k := st.switchN + 1
+      let sw : ONode := { kind := .edge, name := edgeName lan k }
+      if multi then
+        .ok { st with switchN := k, switchPort := 0, corePort := st.corePort + 1, nodes := st.nodes ++ [sw],
+                      links := st.links ++ [oLink (coreName lan) (st.corePort + 1) (edgeName lan k) uplinkPort bw] }
+      else if hasRouter then
+        .ok { st with switchN := k, switchPort := 0, nodes := st.nodes ++ [sw],
+                      links := st.links ++ [oLink (routerName lan) 1 (edgeName lan k) uplinkPort bw] }
+      else .error .unboundRouter
+    else .ok st
+  match opened with
+  | .error e => .error e
+  | .ok st =>
+    let pc : ONode := { kind := .pc, name := pcName lan i, octet := some (i + c.ipStart - 1), gateway := hasRouter }
+    .ok { st with switchPort := st.switchPort + 1, nodes := st.nodes ++ [pc],
+                  links := st.links ++ [oLink (edgeName lan st.switchN) (st.switchPort + 1) (pcName lan i) 1 bw] }
+
+def officeLoop (c : OfficeCfg) (multi hasRouter : Bool) : OSt → List Nat → Except OErr OSt
+  | st, [] => .ok st
+  | st, i :: rest => match officeStep c multi hasRouter st i with
+    | .error e => .error e
+    | .ok st' => officeLoop c multi hasRouter st' rest
+
+/-- `OfficeLANAdder.add_nodes_to_net` (after `ConfigSchema` validation) -/
+def officeBuild (c : OfficeCfg) : Except OErr OfficeInv :=
+  if c.ipStart + c.numPcs ≥ officeIpLimit then .error .ipRange else
+  let m := numSwitches c.numPcs
+  if c.ipStart ≤ m then .error .ipStartSmall else
+  let lan := c.lanName
+  let bw := c.bandwidth.getD defaultBandwidth
+  let multi : Bool := decide (m > 1)
+  let hasRouter : Bool := c.includeRouter.getD true
+  let n0 : List ONode := if multi then [{ kind := .core, name := coreName lan }] else []
+  let n1 : List ONode := if hasRouter then n0 ++ [{ kind := .router, name := routerName lan, octet := some 1 }] else n0
+  let l1 : List LinkInv := if hasRouter ∧ multi then [oLink (routerName lan) 1 (coreName lan) uplinkPort bw] else []
+  let n2 := n1 ++ [{ kind := .edge, name := edgeName lan 1 }]
+  let l2 : List LinkInv :=
+    if multi then l1 ++ [oLink (coreName lan) 1 (edgeName lan 1) uplinkPort bw]
+    else if hasRouter then l1 ++ [oLink (routerName lan) 1 (edgeName lan 1) uplinkPort bw] else l1
+  match officeLoop c multi hasRouter { switchN := 1, switchPort := 0, corePort := 1, nodes := n2, links := l2 }
+      (List.range' 1 c.numPcs) with
+  | .error e => .error e
+  | .ok st => .ok { nodes := st.nodes, links := st.links }
+
+/-- edge switch and port of computer `i` (1-based): 23 computers per switch, ports 1..23 -/
+def edgeOf (i : Nat) : Nat := (i - 1) / pcsPerSwitch + 1
+def portOf (i : Nat) : Nat := (i - 1) % pcsPerSwitch + 1
+/-- computer `i` is the first one on a further edge switch -/
+def opensSwitch (i : Nat) : Bool := decide (1 < i) && decide ((i - 1) % pcsPerSwitch = 0)
+
+def declaredPcNodes (c : OfficeCfg) (hasRouter : Bool) (i : Nat) : List ONode :=
+  (if opensSwitch i then [({ kind := .edge, name := edgeName c.lanName (edgeOf i) } : ONode)] else [])
+    ++ [{ kind := .pc, name := pcName c.lanName i, octet := some (i + c.ipStart - 1), gateway := hasRouter }]
+
+def declaredPcLinks (c : OfficeCfg) (i : Nat) : List LinkInv :=
+  let bw := c.bandwidth.getD defaultBandwidth
+  (if opensSwitch i then [oLink (coreName c.lanName) (edgeOf i) (edgeName c.lanName (edgeOf i)) uplinkPort bw] else [])
+    ++ [oLink (edgeName c.lanName (edgeOf i)) (portOf i) (pcName c.lanName i) 1 bw]
+
+/-- what the documentation says an `office-lan` entry builds (valid entries) -/
+def officeDeclared (c : OfficeCfg) : OfficeInv :=
+  let lan := c.lanName
+  let bw := c.bandwidth.getD defaultBandwidth
+  let multi : Bool := decide (numSwitches c.numPcs > 1)
+  let hasRouter : Bool := c.includeRouter.getD true
+  { nodes := (if multi then [({ kind := .core, name := coreName lan } : ONode)] else [])
+      ++ (if hasRouter then [({ kind := .router, name := routerName lan, octet := some 1 } : ONode)] else [])
+      ++ [{ kind := .edge, name := edgeName lan 1 }]
+      ++ (List.range' 1 c.numPcs).flatMap (declaredPcNodes c hasRouter),
+    links := (if hasRouter ∧ multi then [oLink (routerName lan) 1 (coreName lan) uplinkPort bw] else [])
+      ++ (if multi then [oLink (coreName lan) 1 (edgeName lan 1) uplinkPort bw]
+          else if hasRouter then [oLink (routerName lan) 1 (edgeName lan 1) uplinkPort bw] else [])
+      ++ (List.range' 1 c.numPcs).flatMap (declaredPcLinks c) }
 
 end Primaite.Config
